@@ -201,6 +201,12 @@ func runC20(r *Run, c c20Case) {
 	case "registered-after-the-fact":
 		bcast()
 		chain.Mine(int(confs) + 1)
+	case "stale-header-after-late-registration":
+		// the tx confirmed inside the window, but the registration comes when the window has just closed (tip =
+		// start+window or one more) and the watcher has already seen that tip
+		bcast()
+		chain.Mine(int(window) + rng.Intn(2))
+		pause()
 	case "confirm-late-between-calls":
 		bcast()
 		if tx != nil {
@@ -246,6 +252,14 @@ func runC20(r *Run, c c20Case) {
 				if el != nil {
 					el.NotifyTip()
 				}
+			}
+		case "stale-header-after-late-registration":
+			if s == 0 && el != nil {
+				// a header announcement of an older height (lagging server) right after the registration, still inside
+				// the window; the true tip follows
+				el.Notify(int32(start+window) - 1 - int32(rng.Intn(2)))
+			} else {
+				chain.Mine(1)
 			}
 		case "burst":
 			chain.Mine(1 + rng.Intn(4))
@@ -415,7 +429,7 @@ func TestC20(t *testing.T) {
 	defer r.Finish()
 	r.Rule = "the real BlockchainRpcTxWatcher (bitcoind: 3 confirmations, elementsd: 2) and the real LWK Electrum watcher run over facades of the chain simulator that stamp every RPC answer with the chain version; generated block histories: plain, bursts, blocks or reorganisations between the individual RPC calls of one observation pass, reorganisations that unconfirm / re-confirm the tx, stale bestblock answers, transient RPC errors, tx confirmed before the window start, registration after the fact, confirmation right at the window edge, never-broadcast tx, out-of-order header notifications, several headers announced back to back while the consumer of a report is slow, heights just below 2^32, and a consumer that rejects the first reports. The real lnd tx watcher runs over a fake of lnd's chain notifier (conf events at 3 confirmations, block epochs, GetInfo) with histories that go on past 144 and 1008 confirmations. Oracle per report: some chain version among those the watcher can have looked at satisfies the reported fact; at most one accepted report per registration; a failure (or confirmation) exists once the window is closed for 3 blocks. distinct = (backend, pattern, kinds of reports, offset, rejections)"
 	r.Assumptions = []string{"the rpc watcher can have looked at any chain version since the registration (it hands heights to its observation loops through one goroutine per height, in no particular order); the Electrum watcher at the versions of its last 6 answers and of the header it is processing; the lnd watcher at the versions of its last 6 answers / events", "wall-clock sleeps only give the polling watcher time to run; verdicts depend on version stamps, not on time"}
-	patterns := []string{"plain", "burst", "blocks-between-calls", "reorg", "reorg-between-calls", "stale-bestblock", "transient-errors", "confirmed-before-start", "registered-after-the-fact", "window-edge", "never-broadcast", "out-of-order-notifications", "confirm-late-between-calls", "header-burst-slow-consumer"}
+	patterns := []string{"plain", "burst", "blocks-between-calls", "reorg", "reorg-between-calls", "stale-bestblock", "transient-errors", "confirmed-before-start", "registered-after-the-fact", "window-edge", "never-broadcast", "out-of-order-notifications", "confirm-late-between-calls", "header-burst-slow-consumer", "stale-header-after-late-registration"}
 	var cases []c20Case
 	reps := r.N(16, 240)
 	i := 0
@@ -424,7 +438,7 @@ func TestC20(t *testing.T) {
 			if be == "electrum" && (p == "stale-bestblock") {
 				continue
 			}
-			if be != "electrum" && (p == "out-of-order-notifications" || p == "header-burst-slow-consumer") {
+			if be != "electrum" && (p == "out-of-order-notifications" || p == "header-burst-slow-consumer" || p == "stale-header-after-late-registration") {
 				continue
 			}
 			for k := 0; k < reps; k++ {
